@@ -116,11 +116,12 @@ def coqc_file(path, timeout=1800):
     return rc, log
 
 
-def check_cases(sdk, cases, tag='cases', shard=150):
+def check_cases(sdk, cases, tag='cases', shard=None, viewf=None):
     """cases: list of (id, ops, obs). Evaluates `mismatches` inside Coq (vm_compute).
     Returns list of (id, step) for failing cases; raises BuildError when coqc itself fails."""
     d = os.path.join(BUILD, 'cases')
     os.makedirs(d, exist_ok=True)
+    shard = shard or max(4, (len(cases) + 13) // 14)
     shards = [cases[i:i + shard] for i in range(0, len(cases), shard)]
     files = []
     for n, sh_cases in enumerate(shards):
@@ -129,7 +130,7 @@ def check_cases(sdk, cases, tag='cases', shard=150):
         with open(path, 'w') as f:
             f.write(HEADER)
             f.write('Definition cases : list (list (str * op) * list expected) :=\n [\n')
-            f.write(';\n'.join(coqterm.ccase(ops, obs, sdk) for _, ops, obs in sh_cases))
+            f.write(';\n'.join(coqterm.ccase(ops, obs, sdk, viewf) for _, ops, obs in sh_cases))
             f.write('\n ].\n')
             f.write('Definition M := Eval vm_compute in mismatches %s cases.\nPrint M.\n' % sdk.upper())
         files.append((path, sh_cases))
@@ -164,7 +165,7 @@ def check_cases(sdk, cases, tag='cases', shard=150):
     return [x for r in res for x in r]
 
 
-def model_obs(sdk, ops, upto):
+def model_obs(sdk, ops, upto, obs=None):
     """Diagnostics: what the model observes for the step `upto` of a script (printed Coq term)."""
     d = os.path.join(BUILD, 'cases')
     os.makedirs(d, exist_ok=True)
@@ -172,8 +173,13 @@ def model_obs(sdk, ops, upto):
     with open(path, 'w') as f:
         f.write(HEADER)
         f.write('Definition ops : list (str * op) := %s.\n' % coqterm.clist([coqterm.cop(o) for o in ops[:upto + 1]]))
+        if obs is not None:
+            f.write('Definition x : expected := %s.\n' % coqterm.cexpected(ops[upto], obs[upto], sdk))
+            f.write('Definition D := Eval vm_compute in diag_step %s (fst (sys_run %s [] (removelast ops))) (last ops (bs "", ONewClient)) x.\nPrint D.\n' % (sdk.upper(), sdk.upper()))
         f.write('Definition R := Eval vm_compute in (let r := sys_run %s [] ops in (last (snd r) (ok_obs PNone []), '
                 'map (fun nc => (fst nc, abs_of_client (snd nc))) (fst r))).\nPrint R.\n' % sdk.upper())
+        if obs is not None and obs[upto].get('state') is not None:
+            f.write('Definition X := Eval vm_compute in %s.\nPrint X.\n' % coqterm.cabs_state(obs[upto]['state']))
     rc, log = coqc_file(path)
     for ext in ('.v', '.vo', '.vok', '.vos', '.glob'):
         try:
